@@ -143,12 +143,12 @@ def directed_twoside():
     settling calls take time (subscribers that await), another consumer is listening: whoever takes the message next keeps it"""
     out = []
     all_w = {"enq": 1, "consume": 1, "reject": 1, "ack": 1, "sleep": 1, "finish": 1, "start": 1}
-    for slow in (0, 3, 30):
+    for slow in (0, 3, 30, [30, 1], [1, 30]):
         for settle in ("reject", "ack"):
             for gap in (0, 1, 10):
                 ops = [("start", 0), ("start", 1), ("enqx", "ta", None, None), ("enqx", "ta", None, None), ("consume", 0), ("finish_bg", 0), (settle, 0, 0)]
                 ops += [("sleep", gap)] if gap else []
-                ops += [("consume", 1), ("join_finish", 0), ("consume", 1), ("consume", 1), ("ack", 1, 0), ("ack", 1, 0), ("consume", 1)]
+                ops += [("consume", 1), ("consume", 1), ("join_finish", 0), ("consume", 1), ("ack", 1, 0), ("ack", 1, 0), ("consume", 1)]
                 out.append(dict(seed=8100 + len(out), consumers=[("q1", None, "NORMAL"), ("q1", None, "NORMAL")], topics=["ta"], script=ops,
                                 weights=all_w, consume_tmo_ms=[60], max_ids=4, slow_signals_ms=slow, fifo_only=True, no_inject=True))
     return out
